@@ -145,7 +145,6 @@ static int parsec_termdet_fourcounter_msg_dispatch_taskpool(parsec_taskpool_t *t
     (void)module;
     (void)ce;
 
-    parsec_list_unlock(&parsec_termdet_fourcounter_delayed_messages);
     PARSEC_DEBUG_VERBOSE(10, parsec_debug_output, "TERMDET-4C:\tReceived %d bytes from %d relative to taskpool %d",
                          size, src, tp->taskpool_id);
 
@@ -342,21 +341,35 @@ static int parsec_termdet_fourcounter_taskpool_ready(parsec_taskpool_t *tp)
     parsec_atomic_rwlock_wrunlock(&tpm->rw_lock);
     parsec_mfence();
 
-    parsec_list_lock(&parsec_termdet_fourcounter_delayed_messages);
-    for(item = PARSEC_LIST_ITERATOR_FIRST(&parsec_termdet_fourcounter_delayed_messages);
-        item != PARSEC_LIST_ITERATOR_END(&parsec_termdet_fourcounter_delayed_messages);
-        item = next) {
-        next = PARSEC_LIST_ITEM_NEXT(item);
-        delayed_msg = (parsec_termdet_fourcounter_delayed_msg_t*)item;
-        down_msg = (parsec_termdet_fourcounter_msg_down_t*)delayed_msg->msg;
-        if(down_msg->tp_id == tp->taskpool_id) {
-            parsec_list_nolock_remove(&parsec_termdet_fourcounter_delayed_messages, item);
+    /* Collect the messages delayed for this taskpool while holding the list lock, and
+     * dispatch them once the lock is released: the dispatch may send messages and run the
+     * termination callback, and it must never release a lock it does not hold. */
+    {
+        parsec_list_item_t *mine = NULL, *last = NULL;
+        parsec_list_lock(&parsec_termdet_fourcounter_delayed_messages);
+        for(item = PARSEC_LIST_ITERATOR_FIRST(&parsec_termdet_fourcounter_delayed_messages);
+            item != PARSEC_LIST_ITERATOR_END(&parsec_termdet_fourcounter_delayed_messages);
+            item = next) {
+            next = PARSEC_LIST_ITEM_NEXT(item);
+            delayed_msg = (parsec_termdet_fourcounter_delayed_msg_t*)item;
+            down_msg = (parsec_termdet_fourcounter_msg_down_t*)delayed_msg->msg;
+            if(down_msg->tp_id == tp->taskpool_id) {
+                parsec_list_nolock_remove(&parsec_termdet_fourcounter_delayed_messages, item);
+                item->list_next = NULL;
+                if( NULL == last ) mine = item; else last->list_next = item;
+                last = item;
+            }
+        }
+        parsec_list_unlock(&parsec_termdet_fourcounter_delayed_messages);
+        for(item = mine; NULL != item; item = next) {
+            next = (parsec_list_item_t*)item->list_next;
+            delayed_msg = (parsec_termdet_fourcounter_delayed_msg_t*)item;
             parsec_termdet_fourcounter_msg_dispatch_taskpool(tp, delayed_msg->ce, delayed_msg->tag,
                                                             delayed_msg->msg, delayed_msg->size,
                                                             delayed_msg->src, delayed_msg->module);
+            free(delayed_msg);
         }
     }
-    parsec_list_unlock(&parsec_termdet_fourcounter_delayed_messages);
 
     return PARSEC_SUCCESS;
 }
